@@ -147,6 +147,11 @@ func hasWildcardComponent(c string) bool {
 		if strings.ContainsAny(part, "-+") {
 			return false
 		}
+		// a wildcard follows numeric components only; the last piece of a branch
+		// name (feature/a.x, release/1.x) is not one
+		if strings.ContainsAny(part, "/") {
+			return false
+		}
 	}
 	return false
 }
